@@ -38,7 +38,15 @@ type kind struct {
 	err  error
 }
 
-var kinds = []kind{{"generic", errors.New("disk failure")}, {"not-found", nodeenrollment.ErrNotFound}, {"cancelled", context.Canceled}}
+// tempErr is an error that calls itself temporary, as network-backed storage reports outages.
+type tempErr struct{}
+
+func (tempErr) Error() string   { return "storage temporarily unavailable" }
+func (tempErr) Temporary() bool { return true }
+func (tempErr) Timeout() bool   { return true }
+
+var kinds = []kind{{"generic", errors.New("disk failure")}, {"not-found", nodeenrollment.ErrNotFound}, {"cancelled", context.Canceled},
+	{"deadline-exceeded", context.DeadlineExceeded}, {"temporary", tempErr{}}}
 
 // cx carries what a flow prepared and what the call returned.
 type cx struct {
@@ -586,6 +594,19 @@ func TestEnum_SingleFaults(t *testing.T) {
 				t.Fatalf("harness: flow %s fails without any fault in world %v: %v", f.name, wd, lastRunErr)
 			}
 			rec.Gauge("storage_ops_"+f.name+"_"+wd.backend.String()+fmt.Sprintf("_wrapper=%v", wd.wrapper), int64(n))
+			// an outage: EVERY operation of one kind fails, with each error kind
+			for _, opk := range []string{"store", "load", "remove"} {
+				for _, k := range kinds {
+					_, key, what, ops := execute(f, wd, faultPlan{byKind: opk, kindErr: k})
+					fc := faultCase{Flow: f.name, Backend: wd.backend.String(), Wrapper: wd.wrapper, Kind: k.name + " on every " + opk, Ops: ops}
+					rec.Case("outage/"+f.name+"/"+k.name, fmt.Sprint(f.name, wd, opk, k.name), true, func() any { return fc })
+					if key != "" {
+						if vkit.Violate(t, prop, "C13/"+f.name+"/"+key+"/"+k.name+"-on-every-"+opk, fmt.Sprintf("every %s operation fails with a %s error: %s", opk, k.name, what), fc) {
+							return
+						}
+					}
+				}
+			}
 			for pos := 1; pos <= n; pos++ {
 				for _, k := range kinds {
 					_, key, what, ops := execute(f, wd, faultPlan{positions: map[int]kind{pos: k}})
@@ -604,7 +625,7 @@ func TestEnum_SingleFaults(t *testing.T) {
 			}
 		}
 	}
-	rec.Exhaustive("every single failing storage operation position x 3 error kinds for each flow x 4 worlds", true)
+	rec.Exhaustive("every single failing storage operation position x 5 error kinds for each flow x 4 worlds", true)
 }
 
 // TestProp_MultiFaults (thorough): two faults per call, or every operation of
@@ -619,13 +640,13 @@ func TestProp_MultiFaults(t *testing.T) {
 		plan := faultPlan{positions: map[int]kind{}}
 		mode := rapid.SampledFrom([]string{"two-positions", "by-kind", "position+kind"}).Draw(t, "mode")
 		if mode != "by-kind" {
-			plan.positions[rapid.IntRange(1, 12).Draw(t, "p1")] = kinds[rapid.IntRange(0, 2).Draw(t, "k1")]
+			plan.positions[rapid.IntRange(1, 12).Draw(t, "p1")] = kinds[rapid.IntRange(0, len(kinds)-1).Draw(t, "k1")]
 		}
 		if mode == "two-positions" {
-			plan.positions[rapid.IntRange(1, 12).Draw(t, "p2")] = kinds[rapid.IntRange(0, 2).Draw(t, "k2")]
+			plan.positions[rapid.IntRange(1, 12).Draw(t, "p2")] = kinds[rapid.IntRange(0, len(kinds)-1).Draw(t, "k2")]
 		} else {
 			plan.byKind = rapid.SampledFrom([]string{"store", "load", "remove", "loadbynodeid"}).Draw(t, "opkind")
-			plan.kindErr = kinds[rapid.IntRange(0, 2).Draw(t, "kk")]
+			plan.kindErr = kinds[rapid.IntRange(0, len(kinds)-1).Draw(t, "kk")]
 		}
 		_, key, what, ops := execute(f, wd, plan)
 		desc := map[string]any{"flow": f.name, "backend": wd.backend.String(), "wrapper": wd.wrapper, "mode": mode, "plan": fmt.Sprint(plan.positions, plan.byKind, plan.kindErr.name), "ops": ops}
